@@ -103,4 +103,18 @@ theorem srv_over_run (max : Nat) (sched : Bool) (es : List SrvEvent) : Srv.run m
   | nil => rfl
   | cons e t ih => cases e <;> simp [Srv.run, Srv.step, ih]
 
+theorem srv_run_append (max : Nat) (sched : Bool) (p : SrvPhase) (a b : List SrvEvent) :
+    Srv.run max sched p (a ++ b) =
+      ((Srv.run max sched (Srv.run max sched p a).1 b).1,
+       (Srv.run max sched p a).2 ++ (Srv.run max sched (Srv.run max sched p a).1 b).2) := by
+  induction a generalizing p with
+  | nil => simp [Srv.run]
+  | cons e t ih => simp [Srv.run, ih, List.append_assoc]
+
+theorem srv_handling_data (max : Nat) (sched : Bool) (chunks : List Bytes) :
+    Srv.run max sched .handling (chunks.map .data) = (.handling, []) := by
+  induction chunks with
+  | nil => rfl
+  | cons c t ih => simp [Srv.run, Srv.step, ih]
+
 end Anemo
